@@ -23,29 +23,29 @@ PID = "C11"
 
 # ---------------------------------------------------------------------------
 # exact flow
-def gen(cte, k):
+def gen(cte, k, w=0):
     if cte:
         return np.array([[2, 1], [1, 1]], dtype=object)
-    return np.array([[1, 1], [0, 1]], dtype=object) if k % 2 == 0 else np.array([[1, 0], [1, 1]], dtype=object)
+    return np.array([[1, w + 1], [0, 1]], dtype=object) if k % 2 == 0 else np.array([[1, 0], [1, 1]], dtype=object)
 
 
 def inv2(m):
     return np.array([[m[1, 1], -m[0, 1]], [-m[1, 0], m[0, 0]]], dtype=object)
 
 
-def bigG(cte, t):
+def bigG(cte, t, w=0):
     acc = np.array([[1, 0], [0, 1]], dtype=object)
     if t >= 0:
         for k in range(t):
-            acc = gen(cte, k + 1).dot(acc)
+            acc = gen(cte, k + 1, w).dot(acc)
     else:
         for k in range(-t):
-            acc = inv2(gen(cte, -k)).dot(acc)
+            acc = inv2(gen(cte, -k, w)).dot(acc)
     return acc
 
 
-def phi(cte, b, a):
-    return bigG(cte, b).dot(inv2(bigG(cte, a)))
+def phi(cte, b, a, w=0):
+    return bigG(cte, b, w).dot(inv2(bigG(cte, a, w)))
 
 
 def make_fake_solver(cte):
@@ -71,6 +71,7 @@ def make_fake_solver(cte):
 
         def __init__(self):
             self.t = 0
+            self.w = 0
             self.state = None
             self._integrator = _Integ(self)
             self.rhs = _Rhs()
@@ -88,13 +89,14 @@ def make_fake_solver(cte):
         def step(self, t, *, args=None, copy=True):
             t = int(round(t))
             self.calls.append(("step", t))
-            m = np.array(phi(cte, t, self.t).astype(float))
+            m = np.array(phi(cte, t, self.t, self.w).astype(float))
             self.state = qutip.Qobj(m) @ self.state
             self.t = t
             return self.state.copy()
 
         def _argument(self, args):
-            pass
+            self.calls.append(("args", dict(args)))
+            self.w = int(args.get("w", 0))
 
     return FakeSolver()
 
@@ -104,8 +106,12 @@ def run_real_prop(case):
     sol = make_fake_solver(case["cte"])
     P = qutip.Propagator(sol, memoize=case["memoize"], tol=1e-14)
     answers = []
-    for t, s in case["queries"]:
-        U = P(t, s)
+    for q in case["queries"]:
+        t, s = q[0], q[1]
+        if len(q) > 2 and q[2] is not None:
+            U = P(t, s, w=q[2])
+        else:
+            U = P(t, s)
         m = np.real(U.full())
         answers.append([float(m[0, 0]), float(m[0, 1]), float(m[1, 0]), float(m[1, 1])])
     return {"answers": answers, "times": [int(round(x)) for x in P.times], "t_last": int(sol.t)}
@@ -113,13 +119,19 @@ def run_real_prop(case):
 
 def oracle_prop(case, real):
     probs = []
-    for (t, s), ans in zip(case["queries"], real["answers"]):
-        want = phi(case["cte"], t, s)
-        w = [float(want[0, 0]), float(want[0, 1]), float(want[1, 0]), float(want[1, 1])]
-        scale = 1 + max(abs(x) for x in w)
-        if max(abs(a - b) for a, b in zip(ans, w)) > 1e-6 * scale:
+    w = 0
+    for q, ans in zip(case["queries"], real["answers"]):
+        t, s = q[0], q[1]
+        if len(q) > 2 and q[2] is not None and not case["cte"]:
+            w = q[2]
+        want = phi(case["cte"], t, s, w)
+        wl = [float(want[0, 0]), float(want[0, 1]), float(want[1, 0]), float(want[1, 1])]
+        scale = 1 + max(abs(x) for x in wl)
+        if max(abs(a - b) for a, b in zip(ans, wl)) > 1e-6 * scale:
             kind = "backward" if (t < 0 or s < 0) else "forward"
-            probs.append((f"propagator-{kind}", f"U({t},{s}) = {ans} but a fresh propagator gives {w}"))
+            if any(len(x) > 2 for x in case["queries"]):
+                kind = "args"
+            probs.append((f"propagator-{kind}", f"U({t},{s}) = {ans} but a fresh propagator gives {wl} (args w={w})"))
             break
     ts = real["times"]
     if ts != sorted(set(ts)):
@@ -133,6 +145,7 @@ def gen_prop(rng, tier):
     n = int(rng.integers(1, 9 if tier == "quick" else 30))
     T = 8 if tier == "quick" else 12
     style = rng.integers(0, 4)
+    with_args = rng.random() < 0.4
     qs = []
     for _ in range(n):
         if style == 0:
@@ -143,8 +156,11 @@ def gen_prop(rng, tier):
             t = int(rng.integers(-T, T + 1))
         s = 0 if rng.random() < 0.6 else int(rng.integers(-T // 2, T // 2 + 1))
         if rng.random() < 0.1 and qs:
-            t, s = qs[int(rng.integers(0, len(qs)))]
-        qs.append([t, s])
+            t, s = qs[int(rng.integers(0, len(qs)))][:2]
+        if with_args and rng.random() < 0.4:
+            qs.append([t, s, int(rng.integers(0, 3))])
+        else:
+            qs.append([t, s])
     return {"cte": bool(rng.random() < 0.3), "memoize": int(rng.integers(0, 8)), "queries": qs}
 
 
@@ -169,8 +185,8 @@ def relational(rep, rng, tier):
     methods = ["adams", "bdf", "lsoda", "dop853", "vern7", "vern9", "diag", "krylov"]
     if tier == "quick":
         methods = [m for m in methods if m in ("adams", "vern7", "dop853", "lsoda", "krylov", "diag")]
-    N = 3
     for method in methods:
+        N = 8 if method == "krylov" else 3
         for trial in range(1 if tier == "quick" else 3):
             H0 = qutip.rand_herm(N, seed=int(rng.integers(1 << 30)))
             H1 = qutip.rand_herm(N, seed=int(rng.integers(1 << 30)))
@@ -186,7 +202,7 @@ def relational(rep, rng, tier):
             if method == "rk4":
                 opts.update(dt=1e-3)
             if method == "krylov":
-                opts.update(krylov_dim=N)
+                opts.update(krylov_dim=3)
             tend = 1.0
             full = np.linspace(0, tend, 9)
             try:
@@ -210,6 +226,13 @@ def relational(rep, rng, tier):
                     if method != "krylov":                     # krylov evolves state vectors only
                         so4.run(qutip.qeye(N), [0, 0.4])       # operator-shaped state (propagator)
                     s4 = so4.run(psi0, part).states
+                    # 4b. earlier use on a special state (eigenstate of the generator at t=0: integrators that
+                    #     cache state-dependent data - Krylov bases, step sizes - see a degenerate case) and
+                    #     over a long range
+                    eig = (H(0) if td else H).eigenstates()[1][0]
+                    so6 = qutip.SESolver(H, options=opts)
+                    so6.run(eig, [0, 3.0, 9.0])
+                    s6 = so6.run(psi0, full).states
                     # 5. another solver object stepped in between
                     so5a, so5b = qutip.SESolver(H, options=opts), qutip.SESolver(H, options=opts)
                     so5a.start(psi0, 0); so5b.start(psi_other, 0)
@@ -221,6 +244,7 @@ def relational(rep, rng, tier):
             pairs = [("partition", s1[-1], refd[1.0]), ("partition", s1[2], refd[0.5]),
                      ("restart", r2, refd[1.0]), ("start-step", st[-1], refd[1.0]), ("start-step", st[0], refd[0.25]),
                      ("past-use", s4[-1], refd[1.0]), ("past-use", s4[1], refd[0.125]),
+                     ("past-use-eigenstate", s6[-1], refd[1.0]), ("past-use-eigenstate", s6[4], refd[0.5]),
                      ("interleaved", a2, refd[1.0]), ("interleaved", a1, refd[0.5])]
             for name, got, want in pairs:
                 err = (got - want).norm()
@@ -267,7 +291,7 @@ def run(tier, seed, replay):
             rep.violation(core.Violation("C11:propagator-crash", repr(e)[:300], {"case": c}))
             continue
         qs = c["queries"]
-        nontriv = len(qs) >= 3 and (any(t < 0 or s != 0 for t, s in qs) or qs != sorted(qs))
+        nontriv = len(qs) >= 3 and (any(q[0] < 0 or q[1] != 0 or len(q) > 2 for q in qs) or qs != sorted(qs))
         rep.case(c, nontriv)
         rep.count("cte" if c["cte"] else "td")
         rep.count("memoize=%d" % c["memoize"])
